@@ -405,6 +405,7 @@ const char *StatusName(uint32_t s, int sig)
   }
   std::mt19937_64 rng(rseed);
   int last = 0;
+  int grace = 0;
   uint32_t status = kRunning;
   for (uint32_t step = 0;; ++step) {
     uint16_t enabled = 0;
@@ -422,6 +423,17 @@ const char *StatusName(uint32_t s, int sig)
       enabled |= static_cast<uint16_t>(1U << id);
     }
     if (all_done) { status = kOk; break; }
+    if (enabled == 0 && grace < 2) {
+      // before declaring the run stuck, let every blocked thread run on with much higher spin limits: a bounded
+      // retry loop that gives up on its own (no state change needed) is not a deadlock
+      ++grace;
+      for (int id = 1; id <= g_nthreads; ++id) {
+        TCtx &t = g_t[id];
+        if (!t.finished && t.blocked) { t.blocked = false; t.spin = -60 * grace; t.ro_run = -400 * grace; t.mark_gw = g_gw; t.ro_gw = g_gw; }
+      }
+      --step;
+      continue;
+    }
     if (enabled == 0) {
       status = kStuck;
       std::string who;
